@@ -34,8 +34,30 @@ def manykey_case(rng):
     return {"steps": steps, "env": gen.ENV}
 
 
+def collide_case(rng):
+    """keys that only collide AFTER evaluation (interpolated / $env keys, repeat-generated keys next to literal ones):
+    which entry wins must not depend on the order a Go map is walked in"""
+    d = {"p": "web", "q": "web", "r": "db"}
+    r = rng.random()
+    if r < 0.4:
+        d["m"] = {"$\"{p}\"": rng.randint(1, 9), "$\"{q}\"": rng.randint(10, 19), "$\"{r}\"": 3}
+        if rng.random() < 0.5:
+            d["m"]["web"] = 0
+    elif r < 0.7:
+        d["m"] = {"$env:HOME": 1, "$\"{$env:HOME}\"": 2, "/home/u": 3}
+    else:
+        d["m"] = {"$\"srv{$repeat}\"": {"$repeat": 3, "port": "$repeat"}, "srv1": {"port": 8080}, "srv2": {"port": 9090}}
+    for i in range(rng.randint(0, 6)):
+        d["k%02d" % rng.randint(0, 40)] = gen.tree(rng, 1)
+    steps = [{"merge": {"id": "D0", "parents": [], "data": d}}, {"outdocs": True}, {"out": "json"}]
+    return {"steps": steps, "env": gen.ENV}
+
+
 def gen_case(rng):
-    if rng.random() < 0.25:
+    r0 = rng.random()
+    if r0 < 0.08:
+        c = collide_case(rng)
+    elif r0 < 0.3:
         c = manykey_case(rng)
     else:
         c = rng.choice(GENS)(rng)
